@@ -3,6 +3,7 @@ package c05
 import (
 	"encoding/json"
 	"fmt"
+	"os"
 	"sort"
 	"strings"
 
@@ -138,6 +139,14 @@ func featuresOf(b []Stmt, set map[string]bool) {
 			if len(s.Catches) > 0 {
 				set["catch"] = true
 			}
+			if s.Q != "" {
+				set["bare"] = true
+			}
+			for _, cl := range s.Catches {
+				if cl.Q {
+					set["bare"] = true
+				}
+			}
 		}
 	})
 }
@@ -202,6 +211,20 @@ func candidates(b []Stmt) [][]Stmt {
 				res = append(res, rebuild(with(ns)))
 			}
 			if s.K == "y" {
+				// a part rendered without its marker gets the marker back (the failure then does not need the bare shape)
+				if s.Q != "" {
+					ns := s
+					ns.Q = ""
+					res = append(res, rebuild(with(ns)))
+				}
+				for k := range s.Catches {
+					if s.Catches[k].Q {
+						ns := s
+						ns.Catches = append([]Catch{}, s.Catches...)
+						ns.Catches[k].Q = false
+						res = append(res, rebuild(with(ns)))
+					}
+				}
 				for k := range s.Catches {
 					ns := s
 					ns.Catches = append(append([]Catch{}, s.Catches[:k]...), s.Catches[k+1:]...)
@@ -357,7 +380,8 @@ func (r *runner) check(c Case, replayMode bool) {
 	impl := runScript(c.script())
 	toks := tokens(et)
 	nontrivial := len(toks) >= 3
-	r.c.Eval(c.modelProg()+"#"+c.G.model(), nontrivial)
+	quiet := c.quietList()
+	r.c.Eval(c.modelProg()+"#"+c.G.model()+"#"+quiet, nontrivial)
 	r.c.Hit("final:" + strings.SplitN(ef, ":", 2)[0])
 	r.c.Hit(fmt.Sprintf("try-depth:%d", c.tryDepth()))
 	if c.rec() {
@@ -374,7 +398,10 @@ func (r *runner) check(c Case, replayMode bool) {
 	r.c.HitN("events:T", len(countTok(toks, "T")))
 	r.c.HitN("events:F", len(countTok(toks, "F")))
 	r.c.HitN("events:C", len(countTok(toks, "C")))
-	r.c.SampleSome(map[string]any{"prog": c.modelProg(), "graph": c.G.model(), "trace": et, "final": ef}, 997)
+	if quiet != "" {
+		r.c.Hit("bare-parts")
+	}
+	r.c.SampleSome(map[string]any{"prog": c.modelProg(), "bare": quiet, "graph": c.G.model(), "trace": et, "final": ef}, 997)
 
 	// property: the real interpreter against PHP's rules
 	if kind := divergence(impl.Final, impl.Trace, ef, et); kind != "" {
@@ -387,13 +414,18 @@ func (r *runner) check(c Case, replayMode bool) {
 		si := runScript(sc.script())
 		sf, st := reference(sc)
 		sig := "exc:" + kind + ":" + features(sc)
-		r.c.Violation(sig, fmt.Sprintf("program %q over %s: origami %s, PHP's rules %s|%s", sc.modelProg(), sc.G.model(), si, sf, st),
+		r.c.Violation(sig, fmt.Sprintf("program %q%s over %s: origami %s, PHP's rules %s|%s", sc.modelProg(), bareNote(sc), sc.G.model(), si, sf, st),
 			replay{Kind: "prog", Case: &sc})
 	}
 
 	// correspondence: the real interpreter against the Lean model
 	if r.m != nil {
-		line := "run\tfixed\t" + c.G.model() + "\t" + c.modelProg()
+		// a program with bare parts: the model's events of those parts are hidden (Model.Exc.hide)
+		runCmd, specCmd, qarg := "run", "spec", ""
+		if quiet != "" {
+			runCmd, specCmd, qarg = "runq", "specq", "\t"+quiet
+		}
+		line := runCmd + "\tfixed\t" + c.G.model() + "\t" + c.modelProg() + qarg
 		ans, err := r.m.Ask(line)
 		if err != nil {
 			r.c.Mismatch(replay{Kind: "prog", Case: &c}, impl.String(), "model error: "+err.Error(), "")
@@ -403,19 +435,27 @@ func (r *runner) check(c Case, replayMode bool) {
 		if ans != impl.String() {
 			r.failures++
 			note := ""
-			if pin, err := r.m.Ask("run\tpinned\t" + c.G.model() + "\t" + c.modelProg()); err == nil && pin == impl.String() {
+			if pin, err := r.m.Ask(runCmd + "\tpinned\t" + c.G.model() + "\t" + c.modelProg() + qarg); err == nil && pin == impl.String() {
 				note = "the implementation agrees with the pre-fix (pinned) model: one of the C05 fixes is missing from this tree"
 			}
 			r.c.Mismatch(replay{Kind: "prog", Case: &c}, impl.String(), ans, note)
 		}
 		// the Lean spec and the Go reference must agree as well (two independent statements of PHP's rules)
-		if sp, err := r.m.Ask("spec\t" + c.G.model() + "\t" + c.modelProg()); err == nil && sp != ef+"|"+et {
+		if sp, err := r.m.Ask(specCmd + "\t" + c.G.model() + "\t" + c.modelProg() + qarg); err == nil && sp != ef+"|"+et {
 			r.c.Mismatch(replay{Kind: "prog", Case: &c}, "go-reference "+ef+"|"+et, "lean-spec "+sp, "Spec.Exc and the Go reference interpreter disagree")
 		}
 	}
 	if replayMode {
 		r.c.Note("replay: origami %s ; reference %s|%s", impl, ef, et)
 	}
+}
+
+// how a report names the parts of a program that are rendered without their marker
+func bareNote(c Case) string {
+	if q := c.quietList(); q != "" {
+		return " [rendered without the markers " + q + "]"
+	}
+	return ""
 }
 
 func countTok(toks []string, p string) []string {
@@ -500,6 +540,16 @@ func Run(c *vh.Ctx) {
 		r.check(w, false)
 		c.Hit("stream:witness")
 	}
+	if os.Getenv("C05_ONLY") == "shapes" { // development aid: the body-shape stream alone
+		n := 0
+		enumShapes(c.Thorough(), func(cs Case) { r.check(cs, false); n++ })
+		c.HitN("stream:shapes", n)
+		c.Note("C05_ONLY=shapes: %d programs in %.1f s", n, c.Elapsed().Seconds())
+		if r.m != nil {
+			c.Res.ModelLines = r.m.Lines
+		}
+		return
+	}
 	// the long-running programs first: state of the process that is not restored (a counter, a stack, a cache)
 	// is then found by a program that shows the drift on its own, before thousands of short programs add to it
 	tLong := c.Elapsed()
@@ -513,6 +563,13 @@ func Run(c *vh.Ctx) {
 	}
 	c.HitN("stream:random-long-run", nrl)
 	c.Note("long-running streams: %d programs in %.1f s", nl+nrl, (c.Elapsed() - tLong).Seconds())
+
+	// body shapes: parts rendered without their markers (pure-control catch bodies, empty blocks, a try statement that
+	// is the only statement of a block) — what a rewrite of the try statement keyed on the shape of its parts needs
+	nsh := 0
+	enumShapes(c.Thorough(), func(cs Case) { r.check(cs, false); nsh++ })
+	c.HitN("stream:shapes", nsh)
+	shapeWhat := fmt.Sprintf("; body shapes (parts rendered WITHOUT their marker, so that a catch body is exactly `throw $e;` / empty / `throw new K6` / `return` / `break` / `continue` / one echo, a finally block is empty / exactly one such statement, a try block is exactly its throw): two clauses (clause type × clause type over %s, the shape under test in position 0 or 1, the other clause keeps its marker) × finally × thrown object; three clauses with the shape in each position; two bare clauses with independent shapes; bare try blocks × bare finally blocks × 5 clause lists; a try statement that is the ONLY statement of a bare try block / catch body / finally block of another (6 inner clause lists × 3 inner finally × outer lists): %d programs", map[bool]string{false: "{same, parent, Throwable, sibling}", true: "{same, parent, Exception, Throwable, inherited interface, parent interface, sibling, union}"}[c.Thorough()], nsh)
 
 	n1 := 0
 	enumDepth1(func(cs Case) { r.check(cs, false); n1++ })
@@ -529,6 +586,7 @@ func Run(c *vh.Ctx) {
 	c.Res.ExhaustiveWhat += fmt.Sprintf("; re-entrant: one frame in a function g0 that calls itself again (directly, through a second function, through an anonymous function, inside try/catch (Throwable); 2 or 3 nested activations; top-level call guarded or not) from the try block / the catch bodies / the finally block before the part's own action: exit path × {no clause, matching, non-matching, Throwable} × catch-body action × finally action × %s × {loop, no loop} × %s = %d programs", map[bool]string{false: "{one part, all parts}", true: "every non-empty set of parts"}[c.Thorough()], map[bool]string{false: "3 of the 16 shapes in rotation", true: "16 shapes"}[c.Thorough()], nre)
 
 	c.Res.ExhaustiveWhat += longWhat
+	c.Res.ExhaustiveWhat += shapeWhat
 
 	nr := c.N(1500, 60000)
 	for i := 0; i < nr; i++ {
